@@ -276,3 +276,61 @@ func ReplayFailed(t errorfer, path, msg string) {
 func ReplayPassed(path string) {
 	fmt.Printf("REPLAY-PASS file=%s\n", path)
 }
+
+var pendingFile *os.File
+
+// Pending records the case that is about to run in $VERIF_FAILFILE.pending. If the
+// process dies (a panic on a foreign goroutine, a fatal stack overflow) the driver finds
+// the case there and confirms it through the isolated replay. ClearPending removes it.
+func Pending(property, test string, c any) {
+	path := os.Getenv("VERIF_FAILFILE")
+	if path == "" {
+		return
+	}
+	if pendingFile == nil {
+		f, err := os.OpenFile(path+".pending", os.O_RDWR|os.O_CREATE|os.O_TRUNC, 0o644)
+		if err != nil {
+			return
+		}
+		pendingFile = f
+	}
+	b, err := json.Marshal(Failure{Property: property, Test: test, Message: "the process died while this case was running", Case: c})
+	if err != nil {
+		return
+	}
+	_ = pendingFile.Truncate(0)
+	_, _ = pendingFile.WriteAt(b, 0)
+}
+
+func ClearPending() {
+	if pendingFile != nil {
+		name := pendingFile.Name()
+		pendingFile.Close()
+		pendingFile = nil
+		_ = os.Remove(name)
+	}
+}
+
+// ReadFuzzCorpusFile reads the single []byte argument of a Go fuzz corpus file named
+// by $VERIF_FUZZ_FILE.
+func ReadFuzzCorpusFile() ([]byte, bool) {
+	p := os.Getenv("VERIF_FUZZ_FILE")
+	if p == "" {
+		return nil, false
+	}
+	b, err := os.ReadFile(p)
+	if err != nil {
+		return nil, false
+	}
+	for _, line := range splitLines(string(b)) {
+		const pre = "[]byte("
+		if len(line) > len(pre)+1 && line[:len(pre)] == pre && line[len(line)-1] == ')' {
+			s, err := strconv.Unquote(line[len(pre) : len(line)-1])
+			if err != nil {
+				return nil, false
+			}
+			return []byte(s), true
+		}
+	}
+	return nil, false
+}
